@@ -23,13 +23,15 @@ pub struct Cfg {
     rate_first: bool,
     /// no error function at all (latency only / transparent)
     no_error_fn: bool,
+    /// seed() is the last builder call instead of coming before error_rate()/error_fn()
+    seed_last: bool,
     n: usize,
     inner_fail: Vec<bool>,
 }
 
 pub fn gen(rng: &mut Prng) -> Cfg {
     let rates = [0.0, 0.01, 0.5, 0.99, 1.0, 0.2];
-    let bounds = [(0u64, 0u64), (1, 1), (5, 5), (1, 20), (10, 100), (20, 1), (0, 7), (100, 10)];
+    let bounds = [(0u64, 0u64), (1, 1), (5, 5), (1, 20), (10, 100), (20, 1), (0, 7), (100, 10), (1200, 1250), (1000, 2000), (2500, 10), (999, 1001), (60_000, 61_000)];
     let (min_ms, max_ms) = *rng.pick(&bounds);
     let n = rng.range(50, 300) as usize;
     let no_error_fn = rng.chance(0.15);
@@ -41,6 +43,7 @@ pub fn gen(rng: &mut Prng) -> Cfg {
         max_ms,
         rate_first: rng.chance(0.5),
         no_error_fn,
+        seed_last: rng.chance(0.4),
         n,
         inner_fail: (0..n).map(|_| rng.chance(0.2)).collect(),
     }
@@ -78,15 +81,18 @@ pub fn run(cfg: &Cfg, seed: u64) -> Arc<World> {
                     })
                 }};
             }
-            let base = ChaosLayer::builder().name("c19").latency_rate(cfg.lat_rate).min_latency(Duration::from_millis(cfg.min_ms)).max_latency(Duration::from_millis(cfg.max_ms)).seed(cfg.seed);
+            let base = ChaosLayer::builder().name("c19").latency_rate(cfg.lat_rate).min_latency(Duration::from_millis(cfg.min_ms)).max_latency(Duration::from_millis(cfg.max_ms));
+            let base = if cfg.seed_last { base } else { base.seed(cfg.seed) };
             if cfg.no_error_fn {
-                let layer = base.build();
+                let layer = base.seed(cfg.seed).build();
                 drive!(layer)
             } else if cfg.rate_first {
-                let layer = base.error_rate(cfg.err_rate).error_fn(efn).build();
+                let b = base.error_rate(cfg.err_rate).error_fn(efn);
+                let layer = if cfg.seed_last { b.seed(cfg.seed).build() } else { b.build() };
                 drive!(layer)
             } else {
-                let layer = base.error_fn(efn).error_rate(cfg.err_rate).build();
+                let b = base.error_fn(efn).error_rate(cfg.err_rate);
+                let layer = if cfg.seed_last { b.seed(cfg.seed).build() } else { b.build() };
                 drive!(layer)
             }
         };
